@@ -136,6 +136,7 @@ class Session:
         self.mon = LoopMonitor(self.loop)
         self.stalled = False
         self.clock = [0]
+        self.connect_delay = {}       # connection kind ("control" / "blob") -> loop iterations its connect() takes
 
     # -- server side ---------------------------------------------------------
     def new_link(self, name=None, serve=True):
@@ -166,6 +167,10 @@ class Session:
         class MemConnection:
             async def connect(self, callback, for_blobs=False):
                 from indi.transport.client.tcp import ConnectionHandler
+                # a connection that takes a while to come up (a slow accept): meanwhile the loop runs and the wires are pumped
+                for _ in range(sess.connect_delay.get(kind, 0)):
+                    sess.pump()
+                    await asyncio.sleep(0)
                 link = sess.new_link(kind)
                 h = ConnectionHandler(link.c_reader, link.c_writer, callback, for_blobs=for_blobs)
                 link.client_handler = h
